@@ -251,6 +251,53 @@ func regionSites(c *Check, region map[*ssa.Function]bool) []ssa.CallInstruction 
 	return out
 }
 
+// nilReturnReachable: fn can return a nil error along a path that avoids the cuts — through a constant-nil
+// return, or through a return that hands on the result of a first-party helper which itself can
+// (`return combine(collect(ch))`), to depth 3.
+func nilReturnReachable(fn *ssa.Function, q engine.PathQuery, depth int) (bool, ssa.Instruction) {
+	idx := engine.ErrResultIndex(fn.Signature)
+	if idx < 0 {
+		return false, nil
+	}
+	for _, r := range engine.Returns(fn) {
+		if idx >= len(r.Results) {
+			continue
+		}
+		mayNil := false
+		var helpers []*ssa.Function
+		for _, o := range engine.Origins(r.Results[idx]) {
+			if o == nil {
+				mayNil = true
+				continue
+			}
+			if k, ok := o.(*ssa.Const); ok && k.Value == nil {
+				mayNil = true
+				continue
+			}
+			if call, ri := engine.CallOf(o); call != nil && depth < 3 {
+				if h := call.Common().StaticCallee(); h != nil && len(h.Blocks) > 0 && engine.ErrResultIndex(h.Signature) == ri {
+					helpers = append(helpers, h)
+				}
+			}
+		}
+		if !mayNil && len(helpers) == 0 {
+			continue
+		}
+		if ok, _ := engine.PathExists(fn, nil, engine.IsInstr(r), q); !ok {
+			continue
+		}
+		if mayNil {
+			return true, r
+		}
+		for _, h := range helpers {
+			if ok, at := nilReturnReachable(h, q, depth+1); ok {
+				return true, at
+			}
+		}
+	}
+	return false, nil
+}
+
 // forwardsError: whenever call p (inside h) fails, h does not return a nil error — every return of h
 // reachable from p without taking p's err == nil branch yields p's own error or a freshly built one.
 func forwardsError(h *ssa.Function, p ssa.CallInstruction) bool {
